@@ -32,6 +32,9 @@ CHECKS["C05"] = ("bounded-exhaustive single-step enumeration of all MOV/XCHG/PUS
 CHECKS["C06"] = ("exhaustive enumeration of all 2^16 flag words (jumps) and all 2^16 CX values (JCXZ/LOOPx) for all 74 spellings, assembled by the real Preprocessor and executed by the real Interpreter, against the Intel predicate table",
     "Every jump/loop spelling of syntax.md in both cases, every flag word / CX value: outcome, CX, flags and registers compared with the reference; synonym and complement relations cross-checked on the observed behaviour.",
     "DESIGN.md section 6 C06")
+CHECKS["C07"] = ("bounded-exhaustive enumeration of string/REP spellings x DF x CX 0..N x segment pairs x pointer placements x terminating-element positions, each run to completion under the REPEAT protocol on the real Interpreter; whole-instruction reference and per-step CX invariant; CLI conformance for the driver's REPEAT branch",
+    "All 32 string/REP spellings in both cases, every CX up to 16 (quick) / 64 (thorough) plus large spot values, both directions, 4 (DS,ES) pairs incl. 1 MB wrap, overlapping and 0xFFFF-crossing pointers, every position of the first (non-)matching element and none; final machine state compared in full with the reference; every REPEAT answer must decrement CX by one; 9 programs through the real binary.",
+    "DESIGN.md section 6 C07")
 NOT_YET = {}
 
 def main():
